@@ -1208,7 +1208,10 @@ class SE3(SO3):
         :seealso: :func:`~delta`, :func:`~spatialmath.base.transform3d.delta2tr`
         :SymPy: supported
         """
-        return cls(base.trnorm(base.delta2tr(d)))
+        T = base.delta2tr(d)
+        if T.dtype == 'O':
+            return cls(T, check=False)  # symbolic: leave the first-order matrix as is
+        return cls(base.trnorm(T))
 
     @classmethod
     def Tx(cls, x):
